@@ -36,4 +36,14 @@ edit extract-helper $R/server_udp.go $'\t\tresp := mustHaveRespB(m, nil, dnsmsg.
 edit early-return   $D/utils.go $'func packByte(b []byte, off int, v byte) (int, error) {\n\tif off+1 <= len(b) {\n\t\tb[off] = v\n\t\toff += 1\n\t\treturn off, nil\n\t}\n\treturn off, ErrSmallBuffer\n}' $'func packByte(b []byte, off int, v byte) (int, error) {\n\tif off+1 > len(b) {\n\t\treturn off, ErrSmallBuffer\n\t}\n\tb[off] = v\n\treturn off + 1, nil\n}'
 edit range-int      $R/server_udp.go $'\tfor i := 0; i < threads; i++ {' $'\tfor range threads {'
 edit named-const    $D/name.go 'if len(name)+1+c+1 > 255 {' 'if len(name)+c+2 > 255 {'
+edit neg-flag-form  $R/cache.go 'negativeResp := resp.RCode != dnsmsg.RCodeSuccess' 'negativeResp := !(resp.RCode == dnsmsg.RCodeSuccess)'
+edit window-flip    $R/cache.go 'return remainTtl < (lifeSpan >> 2)' 'return (lifeSpan >> 2) > remainTtl'
+edit window-div     $R/cache.go 'return remainTtl < (lifeSpan >> 2)' 'return remainTtl < lifeSpan/4'
+edit size-floor     $D/msg.go 'if size > 0 && size < 512 {' 'if 0 < size && size < 512 {'
+edit udp-max        $R/server_udp.go $'\tif clientUdpSize < 512 {\n\t\tclientUdpSize = 512\n\t}' $'\tclientUdpSize = max(clientUdpSize, 512)'
+edit notimpl-form   $R/router.go 'len(m.Questions) != 1' '!(len(m.Questions) == 1)'
+edit ttl-min-form   internal/dnsutils/msg_ttl.go $'\t\t\tif ttl := hdr.TTL; ttl < minTTL {\n\t\t\t\tminTTL = ttl\n\t\t\t}' $'\t\t\tminTTL = min(minTTL, hdr.TTL)'
+edit tc-test-form   internal/upstream/upstream.go 'if r.Header.Truncated {' 'if tc := r.Header.Truncated; tc {'
+edit retry-const    $T/quic_transport.go 'retry < 5 &&' 'retry <= 4 &&'
+edit defer-unlock   $T/pipeline_conn.go $'\tc.m.Lock()\n\tdelete(c.queue, uint32(qid))\n\teol := c.nextQid > 65535 && len(c.queue) == 0\n\tc.m.Unlock()' $'\tc.m.Lock()\n\tdelete(c.queue, uint32(qid))\n\tn := len(c.queue)\n\teol := c.nextQid > 65535 && n == 0\n\tc.m.Unlock()'
 rm -rf $out
